@@ -636,3 +636,152 @@ func c17FractionScale(r *core.Run) {
 	}
 	r.Floor(rule, 2)
 }
+
+// signHazards: sign-sensitive Go operations inside the arithmetic methods of numeric value types — (a) a same-width conversion
+// across signedness (uint64 ↔ int64, fix.UFix64 ↔ fix.Fix64, …) and (b) a negation of a signed native value (−x wraps for the
+// minimum) — must be dominated by a branch on the operand with a failing edge. Unguarded sites of the reviewed tree are a
+// recorded baseline (table); a new unguarded site is a violation.
+func signHazards(r *core.Run, rule, table string, sel func(recv string, method string) bool) {
+	w := r.W
+	got := map[string]int{}
+	n := 0
+	rootOf := func(v ssa.Value) ssa.Value {
+		for {
+			switch x := v.(type) {
+			case *ssa.Convert:
+				v = x.X
+			case *ssa.ChangeType:
+				v = x.X
+			case *ssa.MakeInterface:
+				v = x.X
+			default:
+				return v
+			}
+		}
+	}
+	for _, rel := range []string{"interpreter", "values"} {
+		for _, top := range w.SrcFuncsIn(rel) {
+			if top.Parent() != nil || top.Signature.Recv() == nil {
+				continue
+			}
+			_, recv := core.TypeName(top.Signature.Recv().Type())
+			if !sel(recv, top.Name()) {
+				continue
+			}
+			var fns []*ssa.Function
+			var collect func(f *ssa.Function)
+			collect = func(f *ssa.Function) {
+				fns = append(fns, f)
+				for _, a := range f.AnonFuncs {
+					collect(a)
+				}
+			}
+			collect(top)
+			for _, f := range fns {
+				for _, b := range f.Blocks {
+					for _, in := range b.Instrs {
+						var src ssa.Value
+						kind := ""
+						switch x := in.(type) {
+						case *ssa.Convert:
+							sc, sb := signClassOf(x.X.Type())
+							dc, db := signClassOf(x.Type())
+							if sc != "" && dc != "" && sc != dc && sb == db {
+								if rc, rb := signClassOf(rootOf(x.X).Type()); !(rc == dc && rb == db) {
+									src, kind = x.X, "conversion "+types.TypeString(x.X.Type(), shortQual)+"→"+types.TypeString(x.Type(), shortQual)
+								}
+							}
+						case *ssa.ChangeType:
+							sc, sb := signClassOf(x.X.Type())
+							dc, db := signClassOf(x.Type())
+							if sc != "" && dc != "" && sc != dc && sb == db {
+								if rc, rb := signClassOf(rootOf(x.X).Type()); !(rc == dc && rb == db) {
+									src, kind = x.X, "conversion "+types.TypeString(x.X.Type(), shortQual)+"→"+types.TypeString(x.Type(), shortQual)
+								}
+							}
+						case *ssa.UnOp:
+							if x.Op == token.SUB {
+								if c, _ := signClassOf(x.X.Type()); c == "signed" {
+									if _, isConst := x.X.(*ssa.Const); !isConst {
+										src, kind = x.X, "negation"
+									}
+								}
+							}
+						}
+						if src == nil {
+							continue
+						}
+						if _, isConst := src.(*ssa.Const); isConst {
+							continue
+						}
+						n++
+						root := rootOf(src)
+						guarded := guardedBy(f, b, func(v ssa.Value) bool { return v == root || rootOf(v) == root })
+						if !guarded && f.Parent() != nil {
+							// the operand is captured: look for the guard in the enclosing function, before the closure is built
+							var fv *ssa.FreeVar
+							seen := map[ssa.Value]bool{}
+							var find func(v ssa.Value, d int)
+							find = func(v ssa.Value, d int) {
+								if v == nil || seen[v] || d > 6 || fv != nil {
+									return
+								}
+								seen[v] = true
+								if x, ok := v.(*ssa.FreeVar); ok {
+									fv = x
+									return
+								}
+								if vi, ok := v.(ssa.Instruction); ok {
+									for _, op := range vi.Operands(nil) {
+										if op != nil && *op != nil {
+											find(*op, d+1)
+										}
+									}
+								}
+							}
+							find(src, 0)
+							if fv != nil {
+								fvi := -1
+								for i, x := range f.FreeVars {
+									if x == fv {
+										fvi = i
+									}
+								}
+								core.Instrs(f.Parent(), false, func(pin ssa.Instruction) {
+									mc, ok := pin.(*ssa.MakeClosure)
+									if !ok || mc.Fn != ssa.Value(f) || fvi < 0 || fvi >= len(mc.Bindings) {
+										return
+									}
+									binding := mc.Bindings[fvi]
+									if guardedBy(f.Parent(), mc.Block(), func(v ssa.Value) bool { return v == binding }) {
+										guarded = true
+									}
+								})
+							}
+						}
+						if !guarded {
+							got[core.SSAKey(top)+": unguarded "+kind]++
+						}
+					}
+				}
+			}
+		}
+	}
+	if genMode() {
+		genJSON(r, table, got)
+		return
+	}
+	var base map[string]int
+	if !r.Table(table, &base) {
+		return
+	}
+	for _, k := range sortedKeys(got) {
+		if got[k] <= base[k] {
+			r.OK(rule, k, 0, "unguarded on the reviewed tree as well (recorded baseline: the operand's range is restricted by other means)")
+		} else {
+			r.Bad(rule, k, 0, "a sign-sensitive operation on an operand was added without a dominating range test: the minimum value negates to itself and the upper half of an unsigned range reads as negative, so boundary operands give wrapped results or the wrong error kind")
+		}
+	}
+	r.OK(rule, "scan", 0, itoa(n)+" sign-sensitive operations examined")
+	r.Floor(rule, 1)
+}
